@@ -354,8 +354,8 @@ fn c11_wrath_typed_helpers() {
 #[kani::unwind(258)]
 #[kani::stub(crate::wrath_header::inner_crypto::InnerCrypto::apply, ich::pad_apply_inner)]
 fn c11_wrath_read_client() {
-    let sd0 = dh::any_server_dec();
-    let se0 = eh::any_server_enc();
+    let sd0 = dh::any_server_dec_at(253);
+    let se0 = eh::any_server_enc_at(252);
     let facade: bool = kani::any();
     let mut rd = AnyReader::new();
     let mut raw_d = sd0.clone();
@@ -385,8 +385,8 @@ fn c11_wrath_read_client() {
 #[kani::unwind(258)]
 #[kani::stub(crate::wrath_header::inner_crypto::InnerCrypto::apply, ich::pad_apply_inner)]
 fn c11_wrath_read_server() {
-    let cd0 = dh::any_client_dec();
-    let ce0 = eh::any_client_enc();
+    let cd0 = dh::any_client_dec_at(253);
+    let ce0 = eh::any_client_enc_at(252);
     let facade: bool = kani::any();
     let mut rd = AnyReader::new();
     let w = [rd.stream[0], rd.stream[1], rd.stream[2], rd.stream[3], rd.stream[4]];
@@ -439,8 +439,8 @@ fn c11_wrath_read_server() {
 #[kani::unwind(258)]
 #[kani::stub(crate::wrath_header::inner_crypto::InnerCrypto::apply, ich::pad_apply_inner)]
 fn c11_wrath_write_client() {
-    let ce0 = eh::any_client_enc();
-    let cd0 = dh::any_client_dec();
+    let ce0 = eh::any_client_enc_at(252);
+    let cd0 = dh::any_client_dec_at(253);
     let facade: bool = kani::any();
     let size: u16 = kani::any();
     let op32: u32 = kani::any();
@@ -475,8 +475,8 @@ fn c11_wrath_write_client() {
 #[kani::unwind(258)]
 #[kani::stub(crate::wrath_header::inner_crypto::InnerCrypto::apply, ich::pad_apply_inner)]
 fn c11_wrath_write_server() {
-    let se0 = eh::any_server_enc();
-    let sd0 = dh::any_server_dec();
+    let se0 = eh::any_server_enc_at(252);
+    let sd0 = dh::any_server_dec_at(253);
     let facade: bool = kani::any();
     let size: u32 = kani::any();
     let op16: u16 = kani::any();
@@ -640,4 +640,33 @@ fn c06_wrath_server_decision() {
         }
     }
     kani::cover!(own == client_seed, "equal seeds");
+}
+
+/// C14: header bytes in any order and amount never panic the Wrath client (arbitrary state, three
+/// arbitrary operations, including the 'one more byte' call without a preceding attempt).
+#[kani::proof]
+#[kani::unwind(258)]
+#[kani::stub(crate::wrath_header::inner_crypto::InnerCrypto::apply, ich::pad_apply_inner)]
+fn c14_wrath_any_order() {
+    let mut cc = ClientCrypto { decrypt: dh::any_client_dec_at(kani::any()), encrypt: eh::any_client_enc_at(0) };
+    let mut k = 0;
+    let mut larges = 0;
+    while k < 3 {
+        let op: u8 = kani::any();
+        if op == 0 {
+            match cc.attempt_decrypt_server_header(kani::any()) {
+                WrathServerAttempt::Header(h) => assert!(h.size <= 0xFFFF, "C14: small header with a size above 16 bits"),
+                WrathServerAttempt::AdditionalByteRequired => {}
+            }
+        } else if op == 1 {
+            let h = cc.decrypt_large_server_header(kani::any());
+            assert!(h.size <= 0x7F_FFFF, "C14: large header with a size above 23 bits");
+            larges += 1;
+        } else {
+            let mut b: [u8; 4] = kani::any();
+            cc.decrypt(&mut b);
+        }
+        k += 1;
+    }
+    kani::cover!(larges == 3, "three 'one more byte' calls in a row without an attempt");
 }
